@@ -78,6 +78,15 @@ class World:
         return out
 
     def fn(self, spec):
+        if spec and spec[0] == "held":
+            # ["held", name, inner spec]: ONE callable object that the simulated caller keeps and passes again
+            held = self.__dict__.setdefault("held_callables", {})
+            if spec[1] not in held:
+                held[spec[1]] = make_fn(spec[2], self.sempler.noise)
+                self.probes["callable.held_by_caller"] += 1
+            else:
+                self.probes["callable.held_by_caller.reused"] += 1
+            return held[spec[1]]
         return make_fn(spec, self.sempler.noise)
 
     # -- event log -----------------------------------------------------------------
